@@ -12,6 +12,7 @@ type ObsC07 struct {
 	// pendMax / pendUndef: largest size in force (resp. "no Pool object") seen while some pod of the pool had a successful
 	// filter whose bind is still to come. A scheduling attempt is filter + bind: the size in force when the filter
 	// approved the pod still counts when its bind allocates.
+	podIPSync     bool
 	pendMax       map[string]int
 	pendUndef     map[string]bool
 	noOutstanding map[string]bool
@@ -87,6 +88,17 @@ func (o *ObsC07) sample(x *Exec) {
 // begin is called at the first observation of an op/episode.
 func (o *ObsC07) begin(x *Exec, snap *Snapshot) {
 	o.base, o.maxSize, o.undef = map[string]int{}, map[string]int{}, map[string]bool{}
+	// a pod update event (and the periodic pod-IP sync) puts the IP a RUNNING pod carries back into IPAM if it is missing there:
+	// that restores an allocation made earlier, it is neither scheduling nor pre-allocation, so the cap is not checked across it
+	o.podIPSync = false
+	if cur := x.W.curOp; cur >= 0 && cur < len(x.C.Ops) {
+		op := x.C.Ops[cur]
+		for _, k := range append([]Op{op}, op.Sub...) {
+			if k.K == "deliver" || k.K == "syncips" || k.K == "quiesce" {
+				o.podIPSync = true
+			}
+		}
+	}
 	for _, p := range o.pools(x) {
 		o.base[p] = countPrefix(snap.Alloc, "pool__"+p+"_")
 	}
@@ -102,7 +114,7 @@ func (o *ObsC07) check(x *Exec) *vcore.Failure {
 		return nil
 	}
 	for _, p := range o.pools(x) {
-		if o.undef[p] || o.pendUndef[p] {
+		if o.undef[p] || o.pendUndef[p] || o.podIPSync {
 			continue
 		}
 		n := 0
